@@ -83,7 +83,7 @@ CLAIMS = {
         "technique": "regeneration diff, exhaustive decode of dumped name tables, CFG dominance",
     },
     "C14": {
-        "text": "Decides guard/atomicity clauses: label ids validated before dereference; AArch64 register ids validated before packing; emit functions (x86, a64, Builder) reset one-shot state on every exit, commit bytes only on success, never reach an input-validation exit after a fixup/relocation/address-table commit; the shared failure exit resets state before the handler can throw; AArch64 64-bit immediates are range-tested before narrowing and condition codes are bounded by the enum; label-count comparisons are strict; every failing return of an emitter interface function passes through report_error() (flow-sensitive), one-shot state is reset before the handler runs, a label is validated before the first commit of a multi-step function; constant-table subscripts are bounded for arbitrary operands (38 subscripts, upper-bound evaluator) and the opcode MM field stays inside its table. Does not decide that every invalid operand kind is rejected, nor operand-indexed table subscripts.",
+        "text": "Decides guard/atomicity clauses: label ids validated before dereference; AArch64 register ids validated before packing; emit functions (x86, a64, Builder) reset one-shot state on every exit, commit bytes only on success, never reach an input-validation exit after a fixup/relocation/address-table commit; the shared failure exit resets state before the handler can throw; AArch64 64-bit immediates are range-tested before narrowing and condition codes are bounded by the enum; label-count comparisons are strict; every failing return of an emitter interface function passes through report_error() (flow-sensitive), one-shot state is reset before the handler runs, a label is validated before the first commit of a multi-step function; constant-table subscripts are bounded for arbitrary operands (38 subscripts, upper-bound evaluator) and the opcode MM field stays inside its table; the CodeHolder is used only after `_code` was tested. Does not decide that every invalid operand kind is rejected, nor operand-indexed table subscripts.",
         "design_ref": "DESIGN.md section 3 / C14",
         "note": _TB,
         "technique": "must-set / reachability dataflow on clang CFG, sibling-guard comparison, index-range vs table-length check",
@@ -95,7 +95,7 @@ CLAIMS = {
         "technique": "null-tested must-analysis, discarded-result lint with frozen exception table, dominance, free-escape typestate",
     },
     "C16": {
-        "text": "Decides: every arena-backed container, pointer and field mutated after construction of CodeHolder, BaseEmitter, BaseAssembler, BaseBuilder, BaseCompiler, BaseRAPass and ConstPool is reset in the closure of each reset entry point, or exempt with a reason (126 obligations); array members are reset element-wise, ArenaHashBase::reset covers every field; every override of on_attach/on_detach/on_reinit calls the handler it overrides on every path. Does not decide byte equality of recycled vs fresh generation nor address independence.",
+        "text": "Decides: every arena-backed container, pointer and field mutated after construction of CodeHolder, BaseEmitter, BaseAssembler, BaseBuilder, BaseCompiler, BaseRAPass and ConstPool is reset in the closure of each reset entry point, or exempt with a reason (126 obligations); array members are reset element-wise, ArenaHashBase::reset covers every field; every override of on_attach/on_detach/on_reinit calls the handler it overrides on every path; no function of the code-generation units orders object pointers by address. Does not decide byte equality of recycled vs fresh generation nor address independence.",
         "design_ref": "DESIGN.md section 3 / C16",
         "note": _TB,
         "technique": "reset-closure coverage over class fields (call graph + field writes), must-call rule, pointer-compare lint",
